@@ -659,10 +659,14 @@ package server
 //@   trusted reads the replication manager's position
 //@   modifies nothing
 
+// C12 (recorded finding): "a member that restarts from its saved metadata in between must not make a second winner
+// possible" - an acceptor that changes its accepted or committed number has to save it before it answers; the four
+// acceptor entry points change the voter in memory only (the .durable clauses fail on the pinned tree)
 //@ func (*ArbiterManager).commandHandleProposalCommand
 //@   requires self != nil && self.voter != nil && command != nil && self.voter.glock != nil
 //@   loop#1 invariant voterUnchanged(self.voter) && self.voter == old(self.voter)
 //@   ensures C12.proposal.monotone: voterMonotone(self.voter)
+//@   ensures C12.proposal.durable: voterUnchanged(self.voter) || calls(Save) >= 1
 //@   ensures C12.proposal.accept: voterUnchanged(self.voter) || proposalAccepted(self.voter)
 //@   ensures C12.proposal.ackiff: implies(result0 != nil, (result0.ErrType == "") == (self.voter.proposalId != old(self.voter.proposalId)))
 //@   ensures C12.proposal.value: implies(self.voter.proposalId != old(self.voter.proposalId), self.voter.proposalId == request.ProposalId)
@@ -672,6 +676,7 @@ package server
 //@   requires self != nil && self.voter != nil && command != nil && self.voter.glock != nil
 //@   loop#1 invariant voterUnchanged(self.voter) && self.voter == old(self.voter)
 //@   ensures C12.commit.monotone: voterMonotone(self.voter)
+//@   ensures C12.commit.durable: voterUnchanged(self.voter) || calls(Save) >= 1
 //@   ensures C12.commit.accept: voterUnchanged(self.voter) || commitAccepted(self.voter)
 //@   ensures C12.commit.ackiff: implies(result0 != nil, (result0.ErrType == "") == (self.voter.commitId != old(self.voter.commitId)))
 //@   ensures C12.commit.value: implies(self.voter.commitId != old(self.voter.commitId), self.voter.commitId == request.ProposalId && self.voter.proposalHost == request.Host)
@@ -681,6 +686,7 @@ package server
 //@   requires self != nil && self.manager != nil && self.manager.voter != nil && self.manager.voter.glock != nil
 //@   loop#1 invariant voterUnchanged(self.manager.voter) && self.manager == old(self.manager) && self.manager.voter == old(self.manager.voter)
 //@   ensures C12.selfproposal.monotone: voterMonotone(self.manager.voter)
+//@   ensures C12.selfproposal.durable: voterUnchanged(self.manager.voter) || calls(Save) >= 1
 //@   ensures C12.selfproposal.accept: voterUnchanged(self.manager.voter) || (proposalAccepted(self.manager.voter) && self.manager.voter.proposalId == proposalId)
 //@   ensures C12.selfproposal.ackiff: isnil(result1) == (self.manager.voter.proposalId != old(self.manager.voter.proposalId))
 //@   modifies ArbiterVoter.proposalId
@@ -689,6 +695,7 @@ package server
 //@   requires self != nil && self.manager != nil && self.manager.voter != nil && self.manager.voter.glock != nil
 //@   loop#1 invariant voterUnchanged(self.manager.voter) && self.manager == old(self.manager) && self.manager.voter == old(self.manager.voter)
 //@   ensures C12.selfcommit.monotone: voterMonotone(self.manager.voter)
+//@   ensures C12.selfcommit.durable: voterUnchanged(self.manager.voter) || calls(Save) >= 1
 //@   ensures C12.selfcommit.accept: voterUnchanged(self.manager.voter) || (commitAccepted(self.manager.voter) && self.manager.voter.commitId == proposalId && self.manager.voter.proposalHost == host)
 //@   ensures C12.selfcommit.ackiff: isnil(result1) == (self.manager.voter.commitId != old(self.manager.voter.commitId))
 //@   modifies ArbiterVoter.proposalHost, ArbiterVoter.proposalFromHost, ArbiterVoter.commitId
